@@ -31,13 +31,15 @@ def generate(tier, rng):
     for _ in range(n):
         tmax = rng.choice([DEN // 4, DEN, 3 * DEN, 4000])
         g = iogen.rand_dtg(rng, tmax, sliver=SLIVERS if rng.random() < 0.8 else None)
+        if rng.random() < 0.3:
+            g = iogen.shift_dtg(g, rng.choice([5, 1000, DEN // 8]))       # a span that does not start at 0
         blanks = rng.random() < 0.85
         mn = mx = None
         u = rng.random()
         if u < 0.15:
-            mn = rng.choice([0, -DEN, 5, tmax // 2])
+            mn = rng.choice([0, 0, -DEN, 5, g["xmin"], tmax // 2])
         if 0.1 < u < 0.3:
-            mx = rng.choice([tmax, tmax + DEN, tmax - 1, tmax // 2])
+            mx = rng.choice([g["xmax"], g["xmax"] + DEN, g["xmax"] - 1, tmax // 2])
         cases.append({"op": "prep", "g": g, "blanks": blanks, "mn": mn, "mx": mx, "thr": rng.choice(THRS), "scale": ["dyadic", K]})
     return cases
 
@@ -51,19 +53,19 @@ def run(case):
         tg = iogen.build_tg(case["g"], sc.f)
         mn = None if case["mn"] is None else sc.f(case["mn"])
         mx = None if case["mx"] is None else sc.f(case["mx"])
-        txt = textgrid_io.getTextgridAsStr(_tgToDictionary(tg), "textgrid_json", case["blanks"], mn, mx, case["thr"])
+        txt = iogen.save_via(tg, "textgrid_json", case["blanks"], mn, mx, case["thr"])
         # a save does not depend on earlier saves of the same object (e.g. one with the other blank-filling setting)
         try:
             textgrid_io.getTextgridAsStr(_tgToDictionary(tg), "textgrid_json", not case["blanks"], None, None, None)
         except Exception:  # noqa
             pass
-        again = textgrid_io.getTextgridAsStr(_tgToDictionary(tg), "textgrid_json", case["blanks"], mn, mx, case["thr"])
+        again = iogen.save_via(tg, "textgrid_json", case["blanks"], mn, mx, case["thr"])
         if again != txt:
             raise core.OffGrid("saving the same textgrid again (after a save with the other includeBlankSpaces setting) wrote different data")
         # all four formats carry the same prepared data and the same (possibly overridden) span
         ref = iogen.content_of_tgjson(txt)
         for fmt, dec in (("json", iogen.content_of_json), ("short_textgrid", iogen.content_of_text), ("long_textgrid", iogen.content_of_text)):
-            c = dec(textgrid_io.getTextgridAsStr(_tgToDictionary(tg), fmt, case["blanks"], mn, mx, case["thr"]))
+            c = dec(iogen.save_via(tg, fmt, case["blanks"], mn, mx, case["thr"]))
             if (c["xmin"], c["xmax"]) != (ref["xmin"], ref["xmax"]):
                 raise core.OffGrid("%s file spans %r but textgrid_json %r for the same save" % (fmt, (c["xmin"], c["xmax"]), (ref["xmin"], ref["xmax"])))
             if [(t["name"], t["entries"]) for t in c["tiers"]] != [(t["name"], t["entries"]) for t in ref["tiers"]]:
